@@ -39,12 +39,18 @@ def classify(mem, back, out_len):
     d = rpucases.diff(normalize(mem), normalize(back))
     paths = [p for p, _, _ in d]
     cdt = mem["header"]["coefficient_data_type"]
-    if cdt == 1 and all(("_int" in p or p.startswith("/el_type") or "poly_coef_int" in p) for p in paths):
-        return "coefficient_data_type-1-integer-parts-not-written"
     comp = mem.get("vdr_dm_data", {}).get("compressed")
-    if comp and all(p.startswith("/vdr_dm_data/") and p.split("/")[2] in MAIN_FIELDS for p in paths):
-        return "compressed-dm-main-fields-not-written"
-    return "field-mismatch:" + (paths[0] if paths else "?")
+    f14 = [p for p in paths if cdt == 1 and ("_int" in p or p.startswith("/el_type"))]
+    f15 = [p for p in paths if comp and p.startswith("/vdr_dm_data/") and p.split("/")[2] in MAIN_FIELDS]
+    rest = [p for p in paths if p not in f14 and p not in f15]
+    if rest:
+        return "field-mismatch:" + rest[0]
+    shapes = []
+    if f14:
+        shapes.append("coefficient_data_type-1-integer-parts-not-written")
+    if f15:
+        shapes.append("compressed-dm-main-fields-not-written")
+    return "+".join(shapes) if shapes else "field-mismatch:?"
 
 
 def run(ctx):
@@ -112,10 +118,11 @@ def run(ctx):
         if back is None or normalize(mem) != normalize(back):
             shape = classify(mem, back, len(out))
             d = rpucases.diff(normalize(mem), normalize(back)) if back is not None else []
-            ctx.oracle_fail({"op": "rpu.ops", "input": lines[i][:6000], "written": p[1][:2000],
-                             "observed": [(a, str(c)) for a, b_, c in d[:4]] if back is not None else ri[k],
-                             "expected": [(a, str(b_)) for a, b_, c in d[:4]] if back is not None else "the written RPU parses",
-                             "shape": shape})
-            ctx.count("mismatch=" + shape.split(":")[0])
+            for sh in (shape.split("+") if not shape.startswith("field-mismatch") else [shape]):
+                ctx.oracle_fail({"op": "rpu.ops", "input": lines[i][:6000], "written": p[1][:2000],
+                                 "observed": [(a, str(c)) for a, b_, c in d[:4]] if back is not None else ri[k],
+                                 "expected": [(a, str(b_)) for a, b_, c in d[:4]] if back is not None else "the written RPU parses",
+                                 "shape": sh})
+                ctx.count("mismatch=" + sh.split(":")[0])
     ctx.sample(lines[3][:500])
     ctx.sample(lines[4][:500])
